@@ -31,6 +31,10 @@ def main():
           [un(o, X_) for o in ("alw", "ev", "once", "hist", "prev", "next", "rise", "fall")] + [un(o, X_, a, b) for o in TM for a, b in ((0, 1), (1, 2))] +
           [bi("and", X_, var("y")), bi("or", X_, var("y")), un("abs", un("alw", X_)), bi("sub", un("onceT", X_, 0, 1), un("prev", X_))]]
     DP = DP + [un("not", f) for f in DP[:12]] + [un("alwT", f, 0, 1) for f in DP[:12]]
+    # unary minus in verdict position: -(p and q) is violated where (p and q) holds
+    NG = [un("neg", f) for f in [bi("and", ax, ay), bi("or", ax, ay), un("alw", ax), un("alwT", ax, 0, 1), un("evT", ay, 0, 1), un("once", ax), un("not", bi("and", ax, ay))]]
+    NG = NG + [un("alw", NG[0]), un("not", NG[1]), un("evT", NG[0], 0, 1), bi("or", NG[0], bx), bi("implies", ax, NG[1])]
+    DP = DP + NG
     if quick:
         FU = [f for i, f in enumerate(FU) if i % 3 == core.seed() % 3]
     r = explmc.run("C20_explain", FU + D3 + DP, maxn=3, workers=10)
@@ -45,7 +49,7 @@ def main():
             rep.mc_violation("ExplainMC4", r)
     devs = {}
     for dev, fs in (("impliesPolarity", [bi("implies", un("alw", ax), ay), bi("implies", un("evT", ax, 0, 1), ay)]), ("riseNoPrev", [un("next", un("rise", bx)), un("fall", ax)]),
-                    ("firstInterval", D3), ("predicateKeepsPolarity", DP)):
+                    ("firstInterval", D3), ("predicateKeepsPolarity", DP[:-len(NG)]), ("negPassesPolarity", NG)):
         rr = explmc.run("C20_explain_dev_" + dev, fs, maxn=3, dev=[dev], workers=4, expect_violation=True)
         devs[dev] = rr["violated"]
     rep.extra["deviation_on_counterexamples"] = devs
@@ -106,6 +110,16 @@ def main():
             phi = pred(rng.choice(["ge", "le", "gt", "lt"]), inner, const(thr[v0]))
             if rng.random() < 0.4:
                 phi = rng.choice([un("not", phi), un("alwT", phi, 0, 1), bi("or", phi, atom()), un("next", phi)])
+            N = rng.choice([2, 3, 4])
+        if rng.random() < 0.08:
+            # unary minus (ln, log at exact points are outside the value lattice) of a Boolean / temporal formula in verdict position
+            q = rng.choice([lambda: bi(rng.choice(["and", "or", "implies"]), atom(), atom()),
+                            lambda: un(rng.choice(["alwT", "evT", "onceT", "histT"]), atom(), *rng.choice(IVS)),
+                            lambda: un(rng.choice(["alw", "ev", "once", "hist", "not"]), atom()),
+                            lambda: bi("and", var(rng.choice(vs)), atom())])()
+            phi = un("neg", q)
+            if rng.random() < 0.5:
+                phi = rng.choice([un("not", phi), un("alw", phi), un("evT", phi, 0, 1), bi("or", phi, atom()), un("neg", phi)])
             N = rng.choice([2, 3, 4])
         vs_used = vars_of(phi)
         if len(vs_used) * N > 6:
